@@ -190,7 +190,21 @@ func drawBytes(t *rapid.T, alpha []byte, label string) string {
 
 func draw(t *rapid.T) Case {
 	var cs Case
-	switch rapid.IntRange(0, 11).Draw(t, "mode") {
+	switch rapid.IntRange(0, 12).Draw(t, "mode") {
+	case 12:
+		// sized: a pattern of n atoms for n anywhere in 0..300 (boundaries of machine words, small
+		// fixed arrays and length bytes sit there), with an instance of its language or a near miss
+		n := rapid.IntRange(0, 300).Draw(t, "sized_n")
+		var b strings.Builder
+		for i := 0; i < n; i++ {
+			b.WriteString(rapid.SampledFrom(sizedAtoms).Draw(t, "sized_atom"))
+		}
+		cs.Pat = b.String()
+		cs.Str = instance(t, cs.Pat)
+		if len(cs.Str) > 0 && rapid.Bool().Draw(t, "sized_perturb") {
+			i := rapid.IntRange(0, len(cs.Str)-1).Draw(t, "sized_cut")
+			cs.Str = cs.Str[:i] + "z" + cs.Str[i+1:]
+		}
 	case 10, 11:
 		alpha := []byte{'*', '\\', '*', rapid.Byte().Draw(t, "b1"), rapid.Byte().Draw(t, "b2"),
 			rapid.SampledFrom([]byte{0x00, 0x01, 0x7f, 0x80, 0xfe, 0xff, 0xc3, 0xa9}).Draw(t, "b3")}
@@ -237,6 +251,52 @@ func draw(t *rapid.T) Case {
 var prop = h.Define(P, "glob", draw, run)
 
 func TestGlob(t *testing.T) { prop.Check(t) }
+
+var sizedAtoms = []string{"a", "a", "a", "b", "b", "c", "*", `\*`, `\\`}
+
+// TestGlobSizes: for EVERY number of pattern positions n in 0..520 (positions = literals, escapes and
+// collapsed wildcard runs), a fixed family of patterns of exactly that size with a member and a non-member
+// of the language each. A matcher with a size-dependent representation (a bit per position, a fixed array,
+// a one-byte length) is wrong at one n only.
+func TestGlobSizes(t *testing.T) {
+	rep := strings.Repeat
+	cnt := 0
+	for n := 0; n <= 520; n++ {
+		lit := rep("ab", n/2+1)[:n]
+		var cases []Case
+		cases = append(cases, Case{Pat: lit, Str: lit}, Case{Pat: lit, Str: lit + "a"})
+		if n >= 1 {
+			miss := lit[:n-1] + "z"
+			cases = append(cases, Case{Pat: lit, Str: miss}, Case{Pat: lit, Str: lit[:n-1]})
+			// trailing / leading wildcard as the n-th position
+			cases = append(cases,
+				Case{Pat: lit[:n-1] + "*", Str: lit[:n-1]}, Case{Pat: lit[:n-1] + "*", Str: lit[:n-1] + "xyz"}, Case{Pat: lit[:n-1] + "**", Str: lit[:n-1] + "q"},
+				Case{Pat: "*" + lit[:n-1], Str: "xyz" + lit[:n-1]}, Case{Pat: "*" + lit[:n-1], Str: lit[:n-1] + "x"})
+		}
+		if n >= 2 {
+			in := lit[:n-2]
+			cases = append(cases,
+				Case{Pat: "*" + in + "*", Str: "x" + in + "y"}, Case{Pat: "*" + in + "*", Str: in}, Case{Pat: "*" + in + "*", Str: "x" + in[:len(in)/2] + "y"},
+				Case{Pat: `\*` + in + `\\`, Str: "*" + in + `\`}, Case{Pat: `\*` + in + `\\`, Str: "*" + in + "x"})
+		}
+		if n >= 4 {
+			// the shape from hashes and identifiers: escaped prefix, literal run, wildcard run
+			in := rep("b", n-3)
+			cases = append(cases, Case{Pat: `\*\\` + in + "**", Str: `*\` + in}, Case{Pat: `\*\\` + in + "**", Str: `*\` + in + "tail"}, Case{Pat: `\*\\` + in + "**", Str: `*\` + in[1:]})
+			// alternating literal / wildcard: n positions
+			alt := rep("a*", n/2)
+			if n%2 == 1 {
+				alt += "a"
+			}
+			cases = append(cases, Case{Pat: alt, Str: rep("a", n/2+n%2)}, Case{Pat: alt, Str: rep("ab", n/2) + rep("a", n%2)}, Case{Pat: alt, Str: rep("a", n/2+n%2-1)})
+		}
+		for _, c := range cases {
+			prop.One(t, c)
+			cnt++
+		}
+	}
+	P.Sample(map[string]any{"size_sweep": "every pattern size 0..520 positions", "cases": cnt})
+}
 
 // TestGlobByteSweep: for EVERY byte value b, a fixed family of patterns and subjects in which b occurs as a
 // literal, escaped, next to a wildcard, and opposite another byte value.
